@@ -303,19 +303,34 @@ pub fn emit_srcinfo(a: &Args, out: &mut Out) {
     }
     let fresh: Vec<(SourceInfo, String)> = strings.iter().map(|s| (SourceInfo::new(s), s.clone())).collect();
     let all: Vec<(SourceInfo, String)> = fresh.into_iter().chain(linked.into_iter().map(|si| { let t = si.source().to_string(); (si, t) })).collect();
-    for (si, s) in &all {
-        let r = js::guard(|| {
-            let n = si.count_lines();
-            let spans: Vec<serde_json::Value> = (0..n + 2).map(|i| match si.line_span(i) { Some(r) => json!([r.start, r.end]), None => json!([-1, -1]) }).collect();
-            let texts: Vec<serde_json::Value> = (0..n + 2).map(|i| match si.read_line(i) { Some(t) => json!([1, js::bytes(t.as_bytes())]), None => json!([0, []]) }).collect();
-            let pos: Vec<serde_json::Value> = (0..=s.len() + 10).map(|i| { let (l, c) = si.get_pos_pair(i); json!([i, l, c]) }).collect();
-            let same = (si.source() == s) as u8;
-            (n, spans, texts, pos, same)
-        });
-        let rec = match r {
-            Err(()) => json!({"ev":"SrcInfo","src":js::bytes(s.as_bytes()),"panic":1,"lines":0,"spans":[],"texts":[],"pos":[],"same":0}),
-            Ok((n, spans, texts, pos, same)) => json!({"ev":"SrcInfo","src":js::bytes(s.as_bytes()),"panic":0,"lines":n,"spans":spans,"texts":texts,"pos":pos,"same":same}),
-        };
-        out.emit(rec);
+    for (si, s) in &all { out.emit(srcinfo_record(si, s)); }
+}
+
+/// The queries of C25 on one SourceInfo: line count, span and text of every line (and two beyond), the position
+/// of every index up to length + 10.
+fn srcinfo_record(si: &lc3_ensemble::asm::SourceInfo, s: &str) -> serde_json::Value {
+    let r = js::guard(|| {
+        let n = si.count_lines();
+        let spans: Vec<serde_json::Value> = (0..n + 2).map(|i| match si.line_span(i) { Some(r) => json!([r.start, r.end]), None => json!([-1, -1]) }).collect();
+        let texts: Vec<serde_json::Value> = (0..n + 2).map(|i| match si.read_line(i) { Some(t) => json!([1, js::bytes(t.as_bytes())]), None => json!([0, []]) }).collect();
+        let pos: Vec<serde_json::Value> = (0..=s.len() + 10).map(|i| { let (l, c) = si.get_pos_pair(i); json!([i, l, c]) }).collect();
+        let same = (si.source() == s) as u8;
+        (n, spans, texts, pos, same)
+    });
+    match r {
+        Err(()) => json!({"ev":"SrcInfo","src":js::bytes(s.as_bytes()),"panic":1,"lines":0,"spans":[],"texts":[],"pos":[],"same":0}),
+        Ok((n, spans, texts, pos, same)) => json!({"ev":"SrcInfo","src":js::bytes(s.as_bytes()),"panic":0,"lines":n,"spans":spans,"texts":texts,"pos":pos,"same":same}),
+    }
+}
+
+/// `lc3v replay srcinfo hist=<file>`: every string enumerated by MC_SourceInfo (RP configuration) through the real SourceInfo.
+pub fn replay_srcinfo(a: &Args, out: &mut Out) {
+    let hist = std::fs::read_to_string(a.get_str("hist", "")).expect("hist file");
+    for line in hist.lines() {
+        if line.trim().is_empty() { continue; }
+        let b: Vec<u8> = serde_json::from_str::<Vec<u64>>(line).expect("history").iter().map(|&x| x as u8).collect();
+        let Ok(s) = String::from_utf8(b) else { continue };
+        let si = lc3_ensemble::asm::SourceInfo::new(&s);
+        out.emit(srcinfo_record(&si, &s));
     }
 }
